@@ -33,48 +33,83 @@ contract(
     raises=[(ByteAlignmentError, "any(addresses[i] % addr_alignment(layout, element_size) != 0 for i in range(4))")],
 )
 
-IFM_BASE = (cmd1.NPU_SET_IFM_BASE0, cmd1.NPU_SET_IFM_BASE1, cmd1.NPU_SET_IFM_BASE2, cmd1.NPU_SET_IFM_BASE3)
+from contracts.c_generators import FM_PREFIX, _stride_clauses, _stride_regs, _tile_regs  # noqa: E402
+
+
+def _base_regs(g):
+    return tuple("cmd1.NPU_SET_%s_BASE%d" % (g, i) for i in range(4))
+
 
 contract(
     "ethosu.vela.register_command_stream_generator:generate_addresses",
-    variants={"ifm": dict(emit=EMIT, ptr_cmds=TConst(list(IFM_BASE)), addresses=ADDRS4, layout=TEnum(NpuLayout), element_size=TInt(lo=1, hi=4), arch=ARCH_A)},
+    variants={v: dict(emit=EMIT, ptr_cmds=TConst([eval(r) for r in _base_regs(g)]), addresses=ADDRS4, layout=TEnum(NpuLayout), element_size=TInt(lo=1, hi=4),
+                      arch=ARCH_A) for v, g in FM_PREFIX.items()},
     requires=["emit_inv(emit)"],
     raises=[(ByteAlignmentError, "any(addresses[i] % addr_alignment(layout, element_size) != 0 for i in range(4))")],
-    ensures=KEEP + ["D_addr(emit, cmd1.NPU_SET_IFM_BASE0) == addresses[0] and D_addr(emit, cmd1.NPU_SET_IFM_BASE1) == addresses[1]"
-                    " and D_addr(emit, cmd1.NPU_SET_IFM_BASE2) == addresses[2] and D_addr(emit, cmd1.NPU_SET_IFM_BASE3) == addresses[3]"],
-    modifies_maps=mm("cmd1.NPU_SET_IFM_BASE0", "cmd1.NPU_SET_IFM_BASE1", "cmd1.NPU_SET_IFM_BASE2", "cmd1.NPU_SET_IFM_BASE3"),
+    ensures=KEEP,
+    variant_ensures={v: [" and ".join("D_addr(emit, %s) == addresses[%d]" % (r, i) for i, r in enumerate(_base_regs(g)))] for v, g in FM_PREFIX.items()},
+    variant_modifies_maps={v: mm(*_base_regs(g)) for v, g in FM_PREFIX.items()},
     **COMMON,
 )
 
 
-_IFM_REGS0 = ("cmd0.NPU_SET_IFM_REGION", "cmd0.NPU_SET_IFM_HEIGHT0_M1", "cmd0.NPU_SET_IFM_HEIGHT1_M1", "cmd0.NPU_SET_IFM_WIDTH0_M1",
-              "cmd0.NPU_SET_IFM_DEPTH_M1", "cmd0.NPU_SET_IFM_ZERO_POINT")
-_IFM_REGS1 = ("cmd1.NPU_SET_IFM_BASE0", "cmd1.NPU_SET_IFM_BASE1", "cmd1.NPU_SET_IFM_BASE2", "cmd1.NPU_SET_IFM_BASE3",
-              "cmd1.NPU_SET_IFM_STRIDE_C", "cmd1.NPU_SET_IFM_STRIDE_Y", "cmd1.NPU_SET_IFM_STRIDE_X")
+def _fm_group_clauses(g, fm):
+    """register group of one feature map == its fields (register reference: *_M1 = value - 1)"""
+    t = _tile_regs(g)
+    return [
+        "D(emit, cmd0.NPU_SET_%s_REGION) == %s.region" % (g, fm),
+        " and ".join("D_addr(emit, %s) == %s.tiles.addresses[%d]" % (r, fm, i) for i, r in enumerate(_base_regs(g))),
+        "D(emit, %s) == %s.tiles.height_0 - 1 and D(emit, %s) == %s.tiles.width_0 - 1" % (t[0], fm, t[2], fm),
+        "s16(D(emit, %s)) == %s.tiles.height_1 - 1 or D(emit, %s) == %s.tiles.height_1 - 1" % (t[1], fm, t[1], fm),
+    ] + _stride_clauses(g, fm)[:2] + [
+        # zero point as 16-bit two's complement (0 when the feature map has no quantisation)
+        "D(emit, cmd0.NPU_SET_%s_ZERO_POINT) == (%s.quantization.zero_point if %s.quantization is not None else 0) %% 2**16" % (g, fm, fm),
+        # a normal return implies every base address satisfies the layout's alignment rule
+        "all(%s.tiles.addresses[i] %% addr_alignment(%s.layout, %s.data_type.size_in_bytes()) == 0 for i in range(4))" % (fm, fm, fm),
+    ]
+
+
+def _fm_requires(fm):
+    return ["emit_inv(emit)", "%s.tiles.height_0 >= 1" % fm, "%s.tiles.width_0 >= 1" % fm,
+            "implies(%s.strides is None, %s.shape.width * %s.shape.depth * 4 * 16 < 2**40)" % (fm, fm, fm)]
+
+
+def _fm_regs(g, extra0=()):
+    return ("cmd0.NPU_SET_%s_REGION" % g, "cmd0.NPU_SET_%s_ZERO_POINT" % g) + _tile_regs(g) + tuple(extra0) + _base_regs(g) + _stride_regs(g)
+
 
 contract(
     "ethosu.vela.register_command_stream_generator:generate_ifm",
     variants={"default": dict(emit=EMIT, ifm=FM, arch=ARCH_A)},
-    requires=["emit_inv(emit)", "ifm.tiles.height_0 >= 1", "ifm.tiles.width_0 >= 1",
-              "implies(ifm.strides is None, ifm.shape.width * ifm.shape.depth * 4 * 16 < 2**40)"],
+    requires=_fm_requires("ifm"),
     raises=[(ByteAlignmentError, None), (ByteSizeError, None)],
-    # the complete IFM register group a decoder holds afterwards equals the feature map's fields (register reference: *_M1 = value - 1)
-    ensures=KEEP + [
-        "D(emit, cmd0.NPU_SET_IFM_REGION) == ifm.region",
-        "D_addr(emit, cmd1.NPU_SET_IFM_BASE0) == ifm.tiles.addresses[0] and D_addr(emit, cmd1.NPU_SET_IFM_BASE1) == ifm.tiles.addresses[1]"
-        " and D_addr(emit, cmd1.NPU_SET_IFM_BASE2) == ifm.tiles.addresses[2] and D_addr(emit, cmd1.NPU_SET_IFM_BASE3) == ifm.tiles.addresses[3]",
-        "D(emit, cmd0.NPU_SET_IFM_HEIGHT0_M1) == ifm.tiles.height_0 - 1 and D(emit, cmd0.NPU_SET_IFM_WIDTH0_M1) == ifm.tiles.width_0 - 1",
-        "s16(D(emit, cmd0.NPU_SET_IFM_HEIGHT1_M1)) == ifm.tiles.height_1 - 1 or D(emit, cmd0.NPU_SET_IFM_HEIGHT1_M1) == ifm.tiles.height_1 - 1",
-        "D(emit, cmd0.NPU_SET_IFM_DEPTH_M1) == ifm.shape.depth - 1",
-        "implies(ifm.strides is not None, D_addr(emit, cmd1.NPU_SET_IFM_STRIDE_C) == ifm.strides.depth and D_addr(emit, cmd1.NPU_SET_IFM_STRIDE_Y) == ifm.strides.height"
-        " and D_addr(emit, cmd1.NPU_SET_IFM_STRIDE_X) == ifm.strides.width)",
-        "implies(ifm.strides is None, D_addr(emit, cmd1.NPU_SET_IFM_STRIDE_C) == default_strides(ifm).depth and D_addr(emit, cmd1.NPU_SET_IFM_STRIDE_Y) == default_strides(ifm).height"
-        " and D_addr(emit, cmd1.NPU_SET_IFM_STRIDE_X) == default_strides(ifm).width)",
-        # zero point as 16-bit two's complement (0 when the feature map has no quantisation)
-        "D(emit, cmd0.NPU_SET_IFM_ZERO_POINT) == (ifm.quantization.zero_point if ifm.quantization is not None else 0) % 2**16",
-        # a normal return implies every base address satisfies the layout's alignment rule
-        "all(ifm.tiles.addresses[i] % addr_alignment(ifm.layout, ifm.data_type.size_in_bytes()) == 0 for i in range(4))",
-    ],
-    modifies_maps=mm(*(_IFM_REGS0 + _IFM_REGS1)),
+    ensures=KEEP + _fm_group_clauses("IFM", "ifm") + ["D(emit, cmd0.NPU_SET_IFM_DEPTH_M1) == ifm.shape.depth - 1"],
+    modifies_maps=mm(*_fm_regs("IFM", ("cmd0.NPU_SET_IFM_DEPTH_M1",))),
+    **COMMON,
+)
+
+contract(
+    "ethosu.vela.register_command_stream_generator:generate_ofm",
+    variants={"default": dict(emit=EMIT, ofm=FM, arch=ARCH_A)},
+    requires=_fm_requires("ofm"),
+    raises=[(ByteAlignmentError, None), (ByteSizeError, None)],
+    ensures=KEEP + _fm_group_clauses("OFM", "ofm") + [
+        "D(emit, cmd0.NPU_SET_OFM_HEIGHT_M1) == ofm.shape.height - 1 and D(emit, cmd0.NPU_SET_OFM_WIDTH_M1) == ofm.shape.width - 1"
+        " and D(emit, cmd0.NPU_SET_OFM_DEPTH_M1) == ofm.shape.depth - 1"],
+    modifies_maps=mm(*_fm_regs("OFM", ("cmd0.NPU_SET_OFM_HEIGHT_M1", "cmd0.NPU_SET_OFM_WIDTH_M1", "cmd0.NPU_SET_OFM_DEPTH_M1"))),
+    **COMMON,
+)
+
+contract(
+    "ethosu.vela.register_command_stream_generator:generate_ifm2",
+    variants={"tensor": dict(emit=EMIT, ifm2=FM, has_scalar=TConst(False), arch=ARCH_A),
+              "scalar": dict(emit=EMIT, ifm2=FM, has_scalar=TConst(True), arch=ARCH_A)},
+    requires=_fm_requires("ifm2"),
+    raises=[(ByteAlignmentError, None), (ByteSizeError, None)],
+    ensures=KEEP + ["D(emit, cmd0.NPU_SET_IFM2_ZERO_POINT) == (ifm2.quantization.zero_point if ifm2.quantization is not None else 0) % 2**16"],
+    # a tensor second input gets its complete register group; a scalar one only the zero point (no address registers are touched)
+    variant_ensures={"tensor": _fm_group_clauses("IFM2", "ifm2"), "scalar": []},
+    modifies_maps=mm("cmd0.NPU_SET_IFM2_ZERO_POINT"),
+    variant_modifies_maps={"tensor": mm(*[r for r in _fm_regs("IFM2") if r != "cmd0.NPU_SET_IFM2_ZERO_POINT"]), "scalar": []},
     **COMMON,
 )
